@@ -124,6 +124,8 @@ def linear_cases(run):
                 for brank in ((1,) if akind == "qint4" else (1, 2, 3)):   # (a 1-D input returns shape (1, out) instead of (out,): outside the property's batch ranks 1..3; remark in DESIGN.md)
                     for bias in (False, True):
                         for device in ("cpu", "cuda", "mps"):
+                            if device != "cpu" and wkind in ("qint4-axis0", "qint2-axis0"):
+                                continue   # packed weights take one device-independent route (dequantize, then matmul)
                             if akind == "qint4" and (device != "cpu" or (quick and not (dtype == "float32" and wkind in ("qint8-axis0", "qint4-axis0")))):
                                 continue
                             if quick:
@@ -185,7 +187,8 @@ def run_linear(run):
         rp_fin = lambda m, s, i=dict(inst): replay(m, s, i, ("finite",))
         for pi, r in enumerate(res):
             if r.outcome == "raise":
-                run.add(f"C07/does-not-raise[{tag}]/path{pi}:{r.value.tname}", r.hyps, z3.BoolVal(False), "property", inst, {"raises": repr(r.value)[:200]}, replay=rp_raise)
+                fam_r = "C07/cuda-kernel-4d-input" if (device == "cuda" and brank == 3 and r.value.tname == "AssertionError") else "C07"
+                run.add(f"{fam_r}/does-not-raise[{tag}]/path{pi}:{r.value.tname}", r.hyps, z3.BoolVal(False), "property", inst, {"raises": repr(r.value)[:200]}, replay=rp_raise)
                 continue
             E.focus(r)
             out = r.value
